@@ -374,8 +374,8 @@ func (in *inst) take(out *bufio.Writer) {
 			// the pipe is synchronous: a frame counted as written has been read by the reader goroutine,
 			// which appends it right after: wait until the count stands still
 			stable, last := 0, -1
-			for i := 0; i < 400 && stable < 6; i++ {
-				time.Sleep(400 * time.Microsecond)
+			for i := 0; i < 4000 && stable < 40; i++ {
+				time.Sleep(ts(500 * time.Microsecond))
 				c.mu.Lock()
 				n := len(c.frames)
 				c.mu.Unlock()
